@@ -616,6 +616,36 @@ class Malformed(Family):
 
 
 # ----------------------------------------------------------------------------------------------
+def _kfull(weights, factors):
+    """plain-NumPy array of a Kruskal tensor"""
+    fs = [np.asarray(f, dtype=float) for f in factors]
+    w = np.asarray(weights, dtype=float).reshape(-1)
+    out = np.zeros(tuple(f.shape[0] for f in fs))
+    for r in range(len(w)):
+        t = np.array(w[r])
+        for f in fs:
+            t = np.multiply.outer(t, f[:, r])
+        out = out + t
+    return out
+
+
+def _components_parallel(factors):
+    """column j of every factor is a non-zero multiple of column j of the first factor (exact, integers)"""
+    f0 = factors[0]
+    R = len(f0[0]) if f0 else 0
+    for j in range(R):
+        a = [row[j] for row in f0]
+        if not any(a):
+            return False
+        for f in factors[1:]:
+            b = [row[j] for row in f]
+            if not any(b):
+                return False
+            if any(a[i] * b[k] != a[k] * b[i] for i in range(len(a)) for k in range(len(a))):
+                return False
+    return True
+
+
 class Kruskal(Family):
     """ktensor.symmetrize: result symmetric in all modes and passes ktensor.issymmetric; ktensor.issymmetric
     against its model; non-cubic tensors rejected."""
@@ -629,7 +659,7 @@ class Kruskal(Family):
             N = rng.choice([2, 3, 3, 4])
             m = rng.randint(1, 3)
             R = rng.randint(1, 3)
-            kind = rng.choice(["random", "random", "equal", "negated", "noncubic"])
+            kind = rng.choice(["random", "random", "equal", "negated", "parallel", "parallel", "noncubic"])
             w = gen.int_values(rng, R, -3, 3, nonzero=rng.random() < 0.8)
             if kind == "noncubic":
                 sizes = [m] * N
@@ -641,9 +671,27 @@ class Kruskal(Family):
             elif kind == "negated":
                 A = gen.matrix(rng, m, R)
                 fac = [[[x * (-1 if (k % 2) else 1) for x in r] for r in A] for k in range(N)]
+            elif kind == "parallel":
+                # every component is a symmetric rank-one term up to scaling: column j of every factor is a non-zero
+                # multiple of one vector (signs and sizes differ per mode) - an already symmetric Kruskal tensor
+                A = gen.matrix(rng, m, R)
+                fac = []
+                for k in range(N):
+                    cs = [rng.choice([-3, -2, -1, 1, 2, 3]) for _ in range(R)]
+                    fac.append([[x * cs[j] for j, x in enumerate(r)] for r in A])
             else:
                 fac = [gen.matrix(rng, m, R) for _ in range(N)]
             out.append({"weights": w, "factors": fac, "kind": kind})
+        # enumerated (added after seed C15u): symmetric Kruskal tensors of order 2..5 whose sign pattern makes an even /
+        # odd number of factors point against the first one, with weights of either sign
+        for N in (2, 3, 4, 5):
+            for neg in ([], [1], [1, 2], [N - 1], list(range(1, N))):
+                if any(k >= N for k in neg):
+                    continue
+                for wsign in ((1, 1), (-1, 1), (-1, -1)):
+                    A = [[1, 2], [-2, 1], [3, 1]] if N <= 4 else [[1, 2], [-2, 1]]
+                    fac = [[[x * (-1 if k in neg else 1) for x in r] for r in A] for k in range(N)]
+                    out.append({"weights": [2 * wsign[0], 3 * wsign[1]], "factors": fac, "kind": "parallel"})
         return out
 
     def evaluate(self, cases):
@@ -651,11 +699,20 @@ class Kruskal(Family):
         for c in cases:
             K = gen.mk_ktensor(ttb, c["weights"], c["factors"])
 
-            def run(K=K):
+            def run(K=K, c=c):
                 R = K.symmetrize()
                 Kn = K.copy().normalize("all")
                 b, d = R.issymmetric(return_diffs=True)
+                # the property's own clauses on the arrays (plain NumPy, independent of the model)
+                FK, FR = _kfull(c["weights"], c["factors"]), _kfull(R.weights, R.factor_matrices)
+                FR2 = R.symmetrize()
+                FR2 = _kfull(FR2.weights, FR2.factor_matrices)
+                mag = max(1e-300, float(np.max(np.abs(FK))), float(np.max(np.abs(FR))))
                 return {"R": ktensor_j(R), "Kn": ktensor_j(Kn), "b": bool(b), "b_plain": bool(R.issymmetric()),
+                        "err_keep": float(np.max(np.abs(FR - FK))) / mag,
+                        "err_idem": float(np.max(np.abs(FR2 - FR))) / mag,
+                        "array_sym": float(max(np.max(np.abs(FR - np.transpose(FR, p)))
+                                               for p in itertools.permutations(range(FR.ndim)))) / mag,
                         "diffs": jval(np.asarray(d)),
                         "same_factors": all(np.array_equal(R.factor_matrices[0], f) for f in R.factor_matrices)}
             r = call(run)
@@ -712,6 +769,17 @@ class Kruskal(Family):
                     v = Verdict("violation", "the result of ktensor.symmetrize is not symmetric in all modes", v.impl, v.model, None, tags)
                 elif not (ro["b"] and ro["b_plain"] and rtest["b"]) or any(x != 0 for row in ro["diffs"] for x in row):
                     v = Verdict("violation", "the result of ktensor.symmetrize fails ktensor.issymmetric", v.impl, v.model, None, tags)
+                elif ro["array_sym"] > 1e-9:
+                    v = Verdict("violation", "the array of the result of ktensor.symmetrize is not invariant under every "
+                                f"permutation of the modes (relative deviation {ro['array_sym']:.2e})", v.impl, v.model, None, tags)
+                elif ro["err_idem"] > 1e-9:
+                    v = Verdict("violation", "symmetrising the result of ktensor.symmetrize again changes the array "
+                                f"(relative deviation {ro['err_idem']:.2e})", v.impl, v.model, None, tags)
+                elif c["kind"] in ("equal", "negated", "parallel") and _components_parallel(c["factors"]) \
+                        and ro["err_keep"] > 1e-9:
+                    v = Verdict("violation", "an already symmetric Kruskal tensor (every component a multiple of a symmetric "
+                                f"rank-one term) does not keep its value (relative deviation {ro['err_keep']:.2e})",
+                                v.impl, v.model, None, tags)
                 elif v.status == "ok":
                     # one-step trace validation of the model from the implementation's normalised copy
                     Kn = ro["Kn"]
